@@ -452,6 +452,73 @@ theorem runTextCost_le (ts : List Token) : ∀ (b : Nat) (s : TState), TextBound
     | missedClose => simp only; omega
     | invalidAttr => simp only; omega
 
+/-! #### the family on which the concatenation is quadratic: `<a>` followed by `k` references `&amp;` -/
+
+def ampRef : Token := .entity "amp".toList
+def refs (k : Nat) : List Token := List.replicate k ampRef
+/-- `<a>` open with `j` blocks `&amp;` appended -/
+def acc (j : Nat) : TState := ⟨[⟨nameA, AttrState.empty, List.replicate j (.text "&amp;".toList)⟩], none⟩
+
+/-- `0 + 1 + … + k` -/
+def tri : Nat → Nat
+  | 0 => 0
+  | k + 1 => tri k + (k + 1)
+
+theorem sq_le_two_tri (k : Nat) : k * k ≤ 2 * tri k := by
+  induction k with
+  | zero => simp [tri]
+  | succ k ih =>
+    simp only [tri, Nat.mul_add, Nat.add_mul, Nat.mul_one, Nat.one_mul]
+    omega
+
+theorem stepT_acc (j : Nat) : stepT (acc j) ampRef = .ok (acc (j + 1)) := by
+  simp [stepT, ampRef, addTextStrict, acc, addNode, List.replicate_succ]
+
+theorem textLen_acc (j : Nat) : ∀ f ∈ (acc j).stack, f.textLen = 5 * j := by
+  intro f hf
+  simp only [acc, List.mem_singleton] at hf
+  subst hf
+  simp only [Frame.textLen]
+  induction j with
+  | zero => rfl
+  | succ j ih =>
+    rw [List.replicate_succ, List.map_cons, List.sum_cons, ih]
+    have : nodeTextLen (.text "&amp;".toList) = 5 := by decide
+    omega
+
+theorem textCost_acc (j : Nat) : textCost (acc j) ampRef = 5 * j + 5 := by
+  have h := textLen_acc j _ (by simp [acc] : (⟨nameA, AttrState.empty, List.replicate j (.text "&amp;".toList)⟩ : Frame) ∈ (acc j).stack)
+  have ht : tokText ampRef = 5 := by decide
+  simp only [textCost, acc, ht] at h ⊢
+  simp only [h]; simp
+
+theorem runTextCost_cons_ok (s s' : TState) (t : Token) (ts : List Token) (h : stepT s t = .ok s') :
+    runTextCost s (t :: ts) = textCost s t + runTextCost s' ts := by
+  simp only [runTextCost, h]
+
+/-- exact count: `k` references appended to an element that already holds `j` of them copy
+    `5·j·k + 5·(1 + … + k)` characters -/
+theorem textCost_refs (k : Nat) : ∀ j : Nat, runTextCost (acc j) (refs k) = 5 * (j * k) + 5 * tri k := by
+  induction k with
+  | zero => intro j; simp [refs, runTextCost, tri]
+  | succ k ih =>
+    intro j
+    have h := ih (j + 1)
+    have e : refs (k + 1) = ampRef :: refs k := by simp [refs, List.replicate_succ]
+    rw [e, runTextCost_cons_ok _ _ _ _ (stepT_acc j), textCost_acc, h]
+    show 5 * j + 5 + (5 * ((j + 1) * k) + 5 * tri k) = 5 * (j * (k + 1)) + 5 * (tri k + (k + 1))
+    rw [Nat.add_mul, Nat.mul_add j k 1, Nat.one_mul, Nat.mul_one]
+    omega
+
+/-- `<a>` then `k` references: the concatenations copy at least `5·k²/2` characters — not linear in `k` -/
+theorem text_cost_quadratic (k : Nat) :
+    5 * (k * k) ≤ 2 * runTextCost TState.init (.start nameA [] :: refs k) := by
+  have h0 : stepT TState.init (.start nameA []) = .ok (acc 0) := stepT_deep_open 0
+  have hc : textCost TState.init (.start nameA []) = 0 := rfl
+  rw [runTextCost_cons_ok _ _ _ _ h0, hc, textCost_refs k 0, Nat.zero_mul]
+  have := sq_le_two_tri k
+  omega
+
 theorem textBound_init : TextBound 0 TState.init := by intro f hf; simp [TState.init] at hf
 
 end AHP
